@@ -32,13 +32,15 @@ RULE = (
     "an independent sqlite3 connection: all tables equal exactly the pre-image or exactly the post-image of the "
     "fault-free run (full rows, autoincrement ids replaced by the referenced name), foreign_key_check and "
     "integrity_check clean, every item stored before (other than the operation's target) is returned unchanged by "
-    "materials/adsorbates/isotherms/*_types_from_db; then the same operation is repeated without faults (same process "
+    "materials/isotherms/*_types_from_db (every run) and adsorbates_from_db (operations touching adsorbate tables; "
+    "once per distinct file content of the scenario); then the same operation is repeated without faults (same process "
     "and the registries the failed call left for raised faults; the start state for kills): from the pre-image it must "
     "succeed and give the post-image, from the post-image it must behave exactly like a fault-free second call. "
     "Second check: operations that fail naturally part-way (NOT NULL / FOREIGN KEY / unsupported value at a later "
     "statement, referenced item deleted) must leave exactly the pre-image. Non-trivial = fault position strictly "
-    "inside the operation (0<k<N); distinct by (operation variant, content class, k, kind); labels count fault runs per "
-    "(operation, kind)."
+    "inside the operation (0<k<N) whose all-or-nothing, pragma and reader clauses were evaluated; distinct by "
+    "(operation variant, content class, k, kind); labels `runs:<operation>:<kind>` count fault runs, `repeat_held:<operation>` those whose repeat "
+    "clause held as well (the rest are the repeat-clause known finding)."
 )
 ASSUMPTIONS = [
     "faults are injected at Python-visible boundaries (each execute call, before/after commit); SQLite's rollback "
@@ -373,12 +375,9 @@ class Env:
         F.write_db(self.path, self.pre_bytes if content is None else content)
 
     def types_in(self, table):
-        """Type names present in the pre-image (independent connection)."""
+        """Type names stored in the file (called while it holds the pre-image; independent connection)."""
         tname = "isotherm_type" if table == "isotherm" else table + "_properties_type"
-        return set(F.column(self.pre_path_or(self.path), f'SELECT type FROM "{tname}"'))
-
-    def pre_path_or(self, path):
-        return path
+        return set(F.column(self.path, f'SELECT type FROM "{tname}"'))
 
 
 def make_op(env):
@@ -646,7 +645,14 @@ def check_fault_enumeration(desc, ctx):
             where = (f"{variant} [{cclass}] fault {kind}" + (f" at statement {k}/{N} ({_stmt(log, k)})" if stmt_kind
                                                              else (f" (commit {k} of {n_commits})" if n_commits != 1 else "")))
             try:
-                _one_fault(env, factory, kind, k, N, post_img, ref_same, ref_fresh, pre_sum, targets, with_ads, where, ctx)
+                def atomic_clause_held(kind=kind, k=k, stmt_kind=stmt_kind):
+                    # counted when the all-or-nothing / pragma / reader clauses held, whatever the repeat clause gives
+                    ctx.label(f"runs:{variant.split(':')[0]}:{kind}")
+                    if stmt_kind and 0 < k < N:
+                        ctx.nt([variant, cclass, k, kind], {"variant": variant, "content": cclass, "k": k, "kind": kind,
+                                                            "N": N, "statement": _stmt(log, k)})
+                _one_fault(env, factory, kind, k, N, post_img, ref_same, ref_fresh, pre_sum, targets, with_ads, where,
+                           ctx, atomic_clause_held)
             except Violation as v:
                 v.detail = dict(v.detail or {}, kind=kind, k=k, N=N, variant=variant,
                                 statement=_stmt(log, k) if stmt_kind else "commit")
@@ -658,15 +664,13 @@ def check_fault_enumeration(desc, ctx):
                         first_known = first_known or v
                         continue
                 raise
-            ctx.label(f"runs:{variant.split(':')[0]}:{kind}")
-            if stmt_kind and 0 < k < N:
-                ctx.nt([variant, cclass, k, kind], {"variant": variant, "content": cclass, "k": k, "kind": kind, "N": N,
-                                                    "statement": _stmt(log, k)})
+            ctx.label(f"repeat_held:{variant.split(':')[0]}")
         if first_known is not None:
             raise first_known
 
 
-def _one_fault(env, factory, kind, k, N, post_img, ref_same, ref_fresh, pre_sum, targets, with_ads, where, ctx):
+def _one_fault(env, factory, kind, k, N, post_img, ref_same, ref_fresh, pre_sum, targets, with_ads, where, ctx,
+               atomic_clause_held):
     path = env.path
     env.restore_start()
     call = factory()
@@ -705,6 +709,7 @@ def _one_fault(env, factory, kind, k, N, post_img, ref_same, ref_fresh, pre_sum,
     if with_ads and not ads_now:
         now["adsorbates"] = pre_sum["adsorbates"] if img is env.pre_img else None
     check_retrievable(pre_sum, now, targets, where)
+    atomic_clause_held()
     # the same operation can be repeated
     if raised:
         again, err2 = _call(call)  # same process, same objects, registries as the failed call left them
@@ -963,10 +968,10 @@ def kf_overwrite_swallows_integrity_error(check_name, desc, viol):
 # ---------------------------------------------------------------------------------------------------------------------
 CHECKS = [
     Check("fault_enumeration", check_fault_enumeration, strategy=strat_scenario,
-          budget={"quick": 64, "thorough": 800}, shrink=False, shrink_quick=False, exhaustive=True,
+          budget={"quick": 64, "thorough": 600}, shrink=False, shrink_quick=False, exhaustive=True,
           rule="per scenario all 5N+2 (position, kind) faults; all-or-nothing image, pragma checks, readers, repeat"),
     Check("natural_rejection", check_natural_rejection, strategy=strat_natural,
-          budget={"quick": 400, "thorough": 8000}, shrink_quick=False,
+          budget={"quick": 400, "thorough": 6000}, shrink_quick=False,
           rule="operations the store itself rejects at a later statement (NULL / unsupported value, unknown property "
                "type without auto-insert, missing reference, deletion of a referenced item): pre-image exactly, "
                "pragma checks clean, readers return everything; non-trivial = at least one modifying statement had "
